@@ -557,6 +557,10 @@ pub fn main(args: &[String]) -> i32 {
         if seen.insert(s.clone()) {
             emit_violation("C12", s, d);
             nviol += 1;
+            if d.contains("still ran after it and its handles were dropped") {
+                // removal by dropping the owner returned, yet one of its actions starts again (C01)
+                emit_violation("C01", "action-runs-after-owner-drop", d);
+            }
         }
     }
     emit(&J::obj()
